@@ -665,12 +665,20 @@ class TableAttributes(TextAttributes):
             cells = []
 
             for j in range(dim[1]):
-                if j == dim[1] - 1:
-                    border_right = Border(
-                        style=BroadcastValue(
-                            value=self.border_right, dimension=dim
-                        ).iloc(i, j)
+                border_width = get_broadcast_value("border_width", i, j)
+                if border_width is None:
+                    border_width = 15
+
+                def make_border(side, _i=i, _j=j, _w=border_width):
+                    return Border(
+                        style=get_broadcast_value(f"border_{side}", _i, _j),
+                        width=_w,
+                        color=get_broadcast_value(f"border_color_{side}", _i, _j)
+                        or None,
                     )
+
+                if j == dim[1] - 1:
+                    border_right = make_border("right")
                 else:
                     border_right = None
 
@@ -699,12 +707,10 @@ class TableAttributes(TextAttributes):
                         hyphenation=get_broadcast_value("text_hyphenation", i, j),
                     ),
                     width=col_widths[j],
-                    border_left=Border(style=get_broadcast_value("border_left", i, j)),
+                    border_left=make_border("left"),
                     border_right=border_right,
-                    border_top=Border(style=get_broadcast_value("border_top", i, j)),
-                    border_bottom=Border(
-                        style=get_broadcast_value("border_bottom", i, j)
-                    ),
+                    border_top=make_border("top"),
+                    border_bottom=make_border("bottom"),
                     vertical_justification=get_broadcast_value(
                         "cell_vertical_justification", i, j
                     ),
